@@ -1,0 +1,13 @@
+//go:build verif
+
+package wallet
+
+import "github.com/elnosh/gonuts/wallet/storage"
+
+// Hooks for the deterministic-simulation harness (build tag "verif" only).
+
+// VerifWrapDB replaces the wallet's storage with wrap(current storage).
+func (w *Wallet) VerifWrapDB(wrap func(storage.WalletDB) storage.WalletDB) { w.db = wrap(w.db) }
+
+// VerifDB returns the wallet's current storage object.
+func (w *Wallet) VerifDB() storage.WalletDB { return w.db }
